@@ -184,7 +184,7 @@ def logical_size(ctx):
         if gb is not None:
             gt = res(gb).ret()
             key_ = gt[2][1] if gt[0] == 'call' and gt[1] == 'std::collections::HashMap::get' and len(gt[2]) == 2 else None
-            okg_ = key_ is not None and is_param_path(gt[2][0], 1, ['0']) and [x for x in walk(key_) if x[0] == 'param'] == [('param', 2, 'id')] and \
+            okg_ = key_ is not None and is_param_path(gt[2][0], 1, ['0']) and [x[:2] for x in walk(key_) if x[0] == 'param'] == [('param', 2)] and \
                 (is_param(strip_casts(key_), 2) or (key_[0] == 'call' and key_[1].endswith('TilesetId::from_raw')) or key_[0] == 'agg')
             oki_ = False
             if ab_ is not None:
